@@ -277,6 +277,15 @@ func genC10(o *vcoq.Out, r *vcoq.Rand, tier string) error {
 			return fmt.Errorf("pipe script %d: %w", i, err)
 		}
 	}
+	nRace := 250
+	if tier == "thorough" {
+		nRace = 3000
+	}
+	for i := 0; i < nRace && g.hard < 3*maxHard; i++ {
+		if err := g.gcRace(i); err != nil {
+			return fmt.Errorf("gc race %d: %w", i, err)
+		}
+	}
 	for i := 0; i < nFree && g.hard < 3*maxHard; i++ {
 		if err := g.freeRun(i); err != nil {
 			return fmt.Errorf("free run %d: %w", i, err)
